@@ -845,7 +845,11 @@ def np_stack(interp, arrays, axis=0, **kw):
         if axis != 0:
             raise Unsupported("stack of a symbolic-length list along axis != 0")
         get = arrays.fn
-        probe = A.from_nested(get(Sym(z3.Int(V.fresh_name("stackprobe")))))
+        pv = z3.Int(V.fresh_name("stackprobe"))
+        if interp.path is not None:
+            # the element shape is read off an arbitrary existing element (there is one whenever the list is not empty)
+            interp.path.conds.append(z3.Implies(V.lift(arrays.n) > 0, z3.And(pv >= 0, pv < V.lift(arrays.n))))
+        probe = A.from_nested(get(Sym(pv)))
         return SArr((arrays.n,) + tuple(probe.shape), lambda idx: A.from_nested(get(idx[0])).at(tuple(idx[1:])), probe.dtype)
     if isinstance(arrays, X.RepList):
         if axis != 0:
